@@ -30,6 +30,11 @@ pub enum ReadMode {
     Read(usize),
     ReadExact(usize),
     AsyncRead,
+    /// tokio's AsyncRead::poll_read with a ReadBuf of this capacity that is handed back partly filled until it is full
+    /// (what AsyncReadExt::read_exact and hand-written poll loops do)
+    PollFill(usize),
+    /// tokio::io::copy into a Vec
+    TokioCopy,
 }
 
 #[derive(Clone, Debug)]
@@ -64,7 +69,7 @@ impl Sc {
     pub fn to_json(&self) -> Value {
         json!({
             "topo": format!("{:?}", self.topo), "client_opens": self.client_opens, "bidi": self.bidi, "reverse": self.reverse,
-            "len": self.len, "wparts": self.wparts, "rmode": match &self.rmode { ReadMode::Read(b) => json!(["read", b]), ReadMode::ReadExact(b) => json!(["read_exact", b]), ReadMode::AsyncRead => json!(["async_read", 0]) },
+            "len": self.len, "wparts": self.wparts, "rmode": match &self.rmode { ReadMode::Read(b) => json!(["read", b]), ReadMode::ReadExact(b) => json!(["read_exact", b]), ReadMode::AsyncRead => json!(["async_read", 0]), ReadMode::PollFill(b) => json!(["poll_fill", b]), ReadMode::TokioCopy => json!(["tokio_copy", 0]) },
             "nstreams": self.nstreams, "order": self.order, "content": self.content,
             "type_len": self.type_len, "sid_len": self.sid_len, "cuts": self.cuts, "settle_between": self.settle_between, "glue": self.glue,
             "small_window": self.small_window, "sel": self.sel,
@@ -90,6 +95,8 @@ impl Sc {
             rmode: match (v["rmode"][0].as_str().unwrap_or(""), v["rmode"][1].as_u64().unwrap_or(0) as usize) {
                 ("read", b) => ReadMode::Read(b),
                 ("read_exact", b) => ReadMode::ReadExact(b),
+                ("poll_fill", b) => ReadMode::PollFill(b),
+                ("tokio_copy", _) => ReadMode::TokioCopy,
                 _ => ReadMode::AsyncRead,
             },
             nstreams: us("nstreams"),
@@ -154,6 +161,43 @@ async fn read_all(mut r: RecvStream, mode: ReadMode) -> Result<Vec<u8>, String> 
         }
         ReadMode::AsyncRead => {
             r.read_to_end(&mut out).await.map_err(|e| format!("AsyncRead: {e:?}"))?;
+            Ok(out)
+        }
+        ReadMode::PollFill(b) => {
+            let mut storage = vec![0u8; b.max(1)];
+            let mut filled = 0usize;
+            loop {
+                let before = filled;
+                let res = std::future::poll_fn(|cx| {
+                    let mut rb = tokio::io::ReadBuf::new(&mut storage);
+                    rb.set_filled(before);
+                    match tokio::io::AsyncRead::poll_read(std::pin::Pin::new(&mut r), cx, &mut rb) {
+                        std::task::Poll::Ready(Ok(())) => std::task::Poll::Ready(Ok(rb.filled().len())),
+                        std::task::Poll::Ready(Err(e)) => std::task::Poll::Ready(Err(e)),
+                        std::task::Poll::Pending => std::task::Poll::Pending,
+                    }
+                })
+                .await;
+                match res {
+                    Ok(now) if now < before => return Err(format!("poll_read shrank the filled part of the ReadBuf from {before} to {now} bytes")),
+                    Ok(now) if now == before => {
+                        // end of stream: what is in the buffer is the tail
+                        out.extend_from_slice(&storage[..before]);
+                        return Ok(out);
+                    }
+                    Ok(now) => {
+                        filled = now;
+                        if filled == storage.len() {
+                            out.extend_from_slice(&storage);
+                            filled = 0;
+                        }
+                    }
+                    Err(e) => return Err(format!("poll_read: {e:?} after {} bytes", out.len() + before)),
+                }
+            }
+        }
+        ReadMode::TokioCopy => {
+            tokio::io::copy(&mut r, &mut out).await.map_err(|e| format!("tokio::io::copy: {e:?} after {} bytes", out.len()))?;
             Ok(out)
         }
     }
@@ -529,6 +573,10 @@ fn read_modes(len: usize, all: bool) -> Vec<ReadMode> {
         v.push(ReadMode::ReadExact(b));
     }
     v.push(ReadMode::AsyncRead);
+    v.push(ReadMode::TokioCopy);
+    for b in if all { vec![2usize, 7, 1000, len + 1] } else { vec![7usize, len + 1] } {
+        v.push(ReadMode::PollFill(b));
+    }
     v
 }
 
@@ -580,7 +628,7 @@ pub fn scenarios(tier: Tier) -> Vec<Sc> {
                     if len > 8200 && (pi + mi) % 3 != 0 {
                         continue;
                     }
-                    if len >= (1 << 20) && !(matches!(rm, ReadMode::Read(4096) | ReadMode::AsyncRead) && wp.len() <= 2) {
+                    if len >= (1 << 20) && !(matches!(rm, ReadMode::Read(4096) | ReadMode::AsyncRead | ReadMode::PollFill(1000)) && wp.len() <= 2) {
                         continue;
                     }
                     out.push(Sc { client_opens: co, bidi: bi, reverse: rev, len, wparts: wp.clone(), rmode: rm.clone(), small_window: len <= 16384, content: (len % 3) as u8, ..base.clone() });
